@@ -168,8 +168,10 @@ pub fn finish(prop: &'static PropSpec, seed: u64, thorough: bool, res: &RunResul
             continue;
         }
         printed.insert(k, ());
-        let f = crate::minimise::minimise(prop, f);
-        let path = write_replay(prop.id, seed, &f);
+        // The replay file is written first; minimisation then runs in a child process (the failing
+        // execution may corrupt memory or abort) and rewrites the file if it succeeds.
+        let path = write_replay(prop.id, seed, f);
+        minimise_in_child(&path);
         println!("violation: rule={} key={} :: {}", f.violation.rule, f.violation.key, f.violation.detail);
         println!("VIOLATION property={} replay={}", prop.id, path.display());
         code = 1;
@@ -203,6 +205,53 @@ pub fn finish(prop: &'static PropSpec, seed: u64, thorough: bool, res: &RunResul
         return 2;
     }
     code
+}
+
+fn minimise_in_child(path: &Path) {
+    let Ok(exe) = std::env::current_exe() else { return };
+    let Ok(mut child) = std::process::Command::new(exe).arg("minimise").arg(path).stdout(std::process::Stdio::null()).spawn() else { return };
+    let start = std::time::Instant::now();
+    loop {
+        match child.try_wait() {
+            Ok(Some(_)) | Err(_) => break,
+            Ok(None) => {
+                if start.elapsed() > std::time::Duration::from_secs(90) {
+                    let _ = child.kill();
+                    let _ = child.wait();
+                    break;
+                }
+                std::thread::sleep(std::time::Duration::from_millis(20));
+            }
+        }
+    }
+}
+
+/// `nxv minimise <replay file>`: minimises the recorded (case, schedule) pair and rewrites the
+/// file in place (atomically) if the same rule still fires.
+#[cfg(feature = "e1")]
+pub fn minimise_file(path: &str) -> i32 {
+    let Ok(text) = std::fs::read_to_string(path) else { return 2 };
+    let Ok(rf) = serde_json::from_str::<ReplayFile>(&text) else { return 2 };
+    let Some(prop) = props::find(&rf.property) else { return 2 };
+    let decisions = rf.schedule.replay.clone().unwrap_or_default();
+    let found = Found {
+        case: rf.case.clone(),
+        spec: rf.schedule.clone(),
+        violation: crate::oracle::Violation { rule: rf.rule.clone(), detail: rf.detail.clone(), key: rf.key.clone() },
+        case_seed: rf.case_seed,
+        decisions,
+    };
+    let min = crate::minimise::minimise(prop, &found);
+    let mut spec = min.spec.clone();
+    if spec.switches.is_none() {
+        spec.replay = Some(min.decisions.clone());
+    }
+    let out = ReplayFile { case: min.case.clone(), schedule: spec, detail: min.violation.detail.clone(), ..rf };
+    let tmp = format!("{}.tmp", path);
+    if std::fs::write(&tmp, serde_json::to_string_pretty(&out).unwrap()).is_ok() {
+        let _ = std::fs::rename(&tmp, path);
+    }
+    0
 }
 
 pub fn probe_names() -> Vec<&'static str> {
